@@ -47,6 +47,9 @@ theorem C08_full_is_false : ¬ C08_full := by
     simp [s0] at hp'
     rcases hp' with hp' | hp' | hp' <;> subst hp' <;> simp at hterm
 
+/-- it is the second alternative of `C08_interrupted_idle_explained`: pausing -> idle was logged -/
+example : PISeen s0.trans final := ⟨final.trans, by simp [s0], by rw [f4_outcome.2.2.2.2.2]; simp⟩
+
 /-- the partial theorem does hold on it: the task has ended, idle, closed -/
 example : Returned final := C08_interrupted_partial 50 script 1000 s0 plan rfl f4_outcome.1
 
